@@ -107,7 +107,7 @@ def compare(input_data: Any, hist: Dict[str, Any], stats: Dict[str, int]) -> Lis
                     ("fiat_in_no_fee", t.fiat_in_no_fee, lot.fiat_in_no_fee, True),
                     ("fiat_in_with_fee", t.fiat_in_with_fee, lot.fiat_in_with_fee, True),
                 ]
-                if not r.get("cfee"):
+                if not (r.get("cfee") and Fraction(r["cfee"]) > 0):
                     fields.append(("notes", t.notes, r.get("notes") or "", False))
             elif table == "OUT":
                 cout, cfee, spot = Fraction(r["cout"]), Fraction(r["cfee"]), Fraction(r["spot"])
@@ -142,7 +142,7 @@ def compare(input_data: Any, hist: Dict[str, Any], stats: Dict[str, int]) -> Lis
                 if not ok:
                     out.append(("parse.field", {"table": table, "row": t.row, "field": name, "got": str(got), "expected": str(expected)}))
     # artificial fee-only rows: one per acquisition with a crypto fee, same instant / account / unique id, amount = fee
-    expected_fees = sorted((r for r in hist["rows"] if r["t"] == "IN" and r.get("cfee")), key=lambda r: r["row"])
+    expected_fees = sorted((r for r in hist["rows"] if r["t"] == "IN" and r.get("cfee") and Fraction(r["cfee"]) > 0), key=lambda r: r["row"])
     if len(artificial) != len(expected_fees):
         out.append(("parse.artificial-fee-rows", {"got": len(artificial), "expected": len(expected_fees)}))
     else:
